@@ -43,19 +43,68 @@ def alphabet(g: G.Grammar) -> List[str]:
     return chars
 
 
-def parse_all(parser, s: str, max_trees: int = 3):
-    """-> ('trees', [plain trees]) | ('SyntaxError',) | ('raises', cls)"""
+PARSE_WALL_S = 120  # per string; exceeding it is "no verdict observed", never a violation
+PARSE_MEM_EXTRA = 2 << 30  # address space the parser may take on top of what the process uses already
+
+
+class ParseBudget(BaseException):  # not an Exception: must not be swallowed by the code under test
+    pass
+
+
+def _vm_size() -> int:
     try:
+        with open("/proc/self/statm") as f:
+            return int(f.read().split()[0]) * os.sysconf("SC_PAGE_SIZE")
+    except Exception:  # noqa
+        return 2 << 30
+
+
+def guarded(fn):
+    """Run fn() under a soft address-space limit and a wall-clock alarm, so that a parser that explodes on
+    one input ends in MemoryError / ParseBudget for that input instead of the whole check being killed."""
+    import resource
+    import signal
+
+    soft, hard = resource.getrlimit(resource.RLIMIT_AS)
+    cap = _vm_size() + PARSE_MEM_EXTRA
+    if hard != resource.RLIM_INFINITY:
+        cap = min(cap, hard)
+
+    def on_alarm(signum, frame):
+        raise ParseBudget()
+
+    old = signal.signal(signal.SIGALRM, on_alarm)
+    resource.setrlimit(resource.RLIMIT_AS, (cap, hard))
+    signal.setitimer(signal.ITIMER_REAL, PARSE_WALL_S)
+    try:
+        return fn()
+    finally:
+        signal.setitimer(signal.ITIMER_REAL, 0)
+        resource.setrlimit(resource.RLIMIT_AS, (soft, hard))
+        signal.signal(signal.SIGALRM, old)
+
+
+def parse_all(parser, s: str, max_trees: int = 3):
+    """-> ('trees', [plain trees]) | ('SyntaxError',) | ('raises', cls) | ('budget',)"""
+
+    def go():
         out = []
         for i, t in enumerate(parser.parse(s)):
             out.append(t)
             if i + 1 >= max_trees:
                 break
         return ("trees", out)
+
+    try:
+        return guarded(go)
     except SyntaxError:
         return ("SyntaxError",)
     except RecursionError:
         return ("raises", "RecursionError")
+    except MemoryError:
+        return ("raises", "MemoryError")
+    except ParseBudget:
+        return ("budget",)
     except Exception as e:  # noqa
         return ("raises", type(e).__name__)
 
@@ -92,6 +141,11 @@ def check_grammar(ctx: Ctx, g: G.Grammar, start: str, strings: List[str], origin
             ctx.count("oracle", "unknown")
             continue
         want = bool(a)
+        if r[0] == "budget":
+            # the real parser did not answer within PARSE_WALL_S: no verdict to compare
+            ctx.count("parser", f"no-answer-within-{PARSE_WALL_S}s")
+            ctx.notes.append(f"no parser answer within {PARSE_WALL_S} s for {s!r} (in language: {want}) on {json.dumps(g)}")
+            continue
         ctx.count("verdict", f"in-language={want}")
         replay = {"grammar": g, "start": start, "string": s, "isla": r[0] if r[0] != "raises" else r, "in_language": want, "origin": origin}
         if r[0] == "raises":
@@ -151,10 +205,15 @@ def solver_parse(ctx: Ctx, g: G.Grammar, strings: List[str]):
             ctx.evaluations += 1
             ctx.count("solver_parse", start == "<start>" and "start" or "nonterminal")
             try:
-                t = solver.parse(s, start, skip_check=True, silent=True)
+                t = guarded(lambda: solver.parse(s, start, skip_check=True, silent=True))
                 r = "tree"
             except SyntaxError:
                 r = "SyntaxError"
+            except ParseBudget:
+                ctx.count("parser", f"no-answer-within-{PARSE_WALL_S}s")
+                continue
+            except MemoryError:
+                r = "raises-MemoryError"
             except Exception as e:  # noqa
                 r = "raises-" + type(e).__name__
             replay = {"grammar": g, "start": start, "string": s, "isla": r, "in_language": bool(a), "via": "ISLaSolver.parse"}
